@@ -191,6 +191,28 @@ def run(prop, tier, replay):
                     key = f"stdlib:static-error:{c['res']}:{name}({c['types']})"
                 rep.violation(key, {"stdlib": True, "function": name, "literals": c["lits"], "source": c["src"], "outcome": c["res"]},
                               f"standard function {name}({', '.join(c['lits'])[:120]}) in an accepted program: {c['res']}")
+    feat_rows = []
+    if prop == "C01" and not replay:
+        # feature programs: language features outside the random generators' grammar, outcome contract only
+        fp = work / "features.ndjson"
+        tpv(["stfeat", "--seed", s, "--runs", 750 if tier == "quick" else 25000, "--out", fp], timeout=3000)
+        feat_rows = [r for r in read_ndjson(fp) if r["a"] == "Feature"]
+        fams = {r["family"] for r in feat_rows if r["accepted"]}
+        if len(fams) < 20:
+            raise ToolError(f"feature programs: only {len(fams)} families are accepted by the compiler: {sorted(fams)}")
+        for r in feat_rows:
+            if not r["accepted"]:
+                continue
+            if r["res"] in ("Panic", "Abort", "Hang", "PanicInCompiler"):
+                key = f"feature:{r['res'].lower()}:{r['family']}"
+            elif r["res"] != "ok" and r["res"] not in VALUE_FAULTS:
+                key = f"feature:static-error:{r['res']}:{r['family']}"
+            elif r["frames"] != 0:
+                key = f"feature:frames-left:{r['family']}"
+            else:
+                continue
+            rep.violation(key, {"feature": True, "family": r["family"], "k": r["k"], "seed": s, "source": r.get("src", ""), "outcome": r["res"], "frames": r["frames"]},
+                          f"feature program #{r['k']} ({r['family']}): outcome {r['res']}, frames {r['frames']}")
     rc_runs = rc_events = 0
     if prop == "C03" and not replay:
         from checks.runtimecycle import tag_rejections
@@ -208,7 +230,7 @@ def run(prop, tier, replay):
     cov = {
         "states": max(mc["distinct"], 1) + len(rows), "transitions": max(mc["generated"], 1) + len(rows),
         "traces_validated_against_impl": len(runs),
-        "programs_typed_core": len(runs), "cycles_validated": ncyc, "programs_wide_generator": len(wide_rows), "operator_matrix_cases_full_width": len(op_rows), "stdlib_functions_called": sum(1 for r in std_rows if r["okClasses"] > 0), "stdlib_calls": sum(r["calls"] for r in std_rows),
+        "programs_typed_core": len(runs), "cycles_validated": ncyc, "programs_wide_generator": len(wide_rows), "operator_matrix_cases_full_width": len(op_rows), "feature_programs_accepted": sum(1 for r in feat_rows if r["accepted"]), "feature_families": len({r["family"] for r in feat_rows if r["accepted"]}), "stdlib_functions_called": sum(1 for r in std_rows if r["okClasses"] > 0), "stdlib_calls": sum(r["calls"] for r in std_rows),
         "profiles": {p: sum(1 for r in runs if scripts[r[0]["script"]]["profile"] == p) for p in ("matrix", "strict", "natural", "pous", "case")},
         "outcomes": outcomes,
         "runtime_cycle_runs_tag_checked": rc_runs, "runtime_cycle_events_tag_checked": rc_events,
